@@ -148,7 +148,7 @@ var (
 	c01Core  = []string{"1", "01", "+1", "0", "2", "-1", "", "x", "1.0", "99999999999999999999", "١", "1 ", "0x1", "0b1", "0o1", "1_", "0_1", "１", "1e0", "true"}
 	c01Ver   = []string{"1", "2", "3", "0", "4", "", "abc", "1e3", "99999999999999999999", "-1", "+2", "02", "8", "10", "010", "012", "0x1", "0X2", "0b1", "0b10", "0o1", "0o10", "1_0", "1_", "0x8", "0xa", "0xA", "２", "2.0", " 2", "2 ", "1e1", "-0", "+0", "00"}
 	c01Net   = []string{"tcp", "unix", "", "udp", "TCP", "tcp4", "unixgram", "junk", "unix "}
-	c01AddrT = []string{":1234", "127.0.0.1:80", "127.0.0.1:99999", "[::1]:1", "nohost", "", "127.0.0.1", "127.0.0.1:-1", "1.2.3.4:http", "[::1", "999.1.1.1:1"}
+	c01AddrT = []string{":1234", "127.0.0.1:80", "127.0.0.1:99999", "[::1]:1", "[fe80::1%lo]:1234", "[fe80::1%nosuchif0]:1", "[::ffff:127.0.0.1]:7", "127.0.0.1:0", "nohost", "", "127.0.0.1", "127.0.0.1:-1", "1.2.3.4:http", "[::1", "999.1.1.1:1"}
 	c01AddrU = []string{"/p/x.sock", "", "relative.sock", "/" + strings.Repeat("a", 200), "@abstract", "/tmp/with space"}
 	c01Proto = []string{"\x00absent", "netrpc", "grpc", "", "GRPC", "junk", "netrpc "}
 	c01Mux   = []string{"\x00absent", "true", "false", "1", "0", "T", "yes", "", "TRUE", "t"}
@@ -242,7 +242,7 @@ func c01ValidFor(r *rand.Rand, p *spec.C01Case) c01Fields {
 	off := spec.C01Offered(p.Sets)
 	f.ver = strconv.Itoa(off[r.Intn(len(off))])
 	if r.Intn(2) == 0 {
-		f.network, f.addr = "tcp", pick(r, []string{":1234", "127.0.0.1:80", "[::1]:1"})
+		f.network, f.addr = "tcp", pick(r, []string{":1234", "127.0.0.1:80", "[::1]:1", "[fe80::1%lo]:1234"})
 	} else {
 		f.network, f.addr = "unix", pick(r, []string{"/p/x.sock", "relative.sock", "/tmp/with space"})
 	}
@@ -507,6 +507,11 @@ func c01Judge(c spec.Case, evs []spec.Event, d *Death) CaseResult {
 			}
 			if o.Version != exp.Version {
 				viol("wrong-version", fmt.Sprintf("NegotiatedVersion()=%d, line says %d", o.Version, exp.Version))
+			}
+			if want := exp.Net + " " + exp.Addr; len(o.Addr2) > 0 && string(o.Addr2) != want {
+				viol("wrong-address:second-start", fmt.Sprintf("a second Start on the started client returned %q, the line says %q", o.Addr2, want))
+			} else if len(o.AddrRC) > 0 && string(o.AddrRC) != want {
+				viol("wrong-address:reattach-config", fmt.Sprintf("ReattachConfig().Addr is %q, the line says %q", o.AddrRC, want))
 			}
 			if o.Net != exp.Net || string(o.Addr) != exp.Addr {
 				viol("wrong-address", fmt.Sprintf("address %s/%q, line says %s/%q", o.Net, o.Addr, exp.Net, exp.Addr))
